@@ -63,9 +63,10 @@ Definition tabule1 (n : Z) : option bool :=
 Definition tabule2 (n : Z) : option bool :=
   tab_search tab2 TP2_OFFSET T2_LOOPSHIFT T2_STEPSHIFT 64 T2_LOOP0 T2_PLUS0 T2_HERE0 n.
 
-(* IntPrimeDom::isprime(n, r):  n < B1 ? Tabule((int32_t)n) : n < B2 ? Tabule2((int32_t)n) : local_prime(n, r)
+(* IntPrimeDom::isprime(n, r):  [n < G ? 0 :  -- only when the source has this guard]  n < B1 ? Tabule((int32_t)n) : n < B2 ? Tabule2((int32_t)n) : local_prime(n, r)
    local_prime = mpz_probab_prime_p: the oracle lp *)
 Definition isprime_model (lp : Z -> bool) (n : Z) : option bool :=
+  if ISPRIME_HAS_GUARD && (n <? ISPRIME_GUARD) then Some false else
   if n <? DISPATCH1 then tabule1 (wrap32 n)
   else if n <? DISPATCH2 then tabule2 (wrap32 n)
   else Some (lp n).
@@ -149,11 +150,11 @@ Section Factor.
     if r =? 1 then Some r else
     let r := if isprime r then r else factor_model r in
     ifp_loop fuel r.
-  (* while (iffactorprime(r, n, 0) == 1 && !isprime(n)) {}   — None: would try again *)
+  (* while (iffactorprime(r, n, 0) == 1 [&& n > 1 -- when the source has it] && !isprime(n)) {}   — None: would try again for ever *)
   Definition primefactor_model (fuel : nat) (n : Z) : option Z :=
     match iffactorprime_model fuel n with
     | None => None
-    | Some r => if (r =? 1) && negb (isprime n) then None else Some r
+    | Some r => if (r =? 1) && (if PRIMEFACTOR_GUARD then n >? 1 else true) && negb (isprime n) then None else Some r
     end.
 End Factor.
 
@@ -198,7 +199,7 @@ Section SetDiv.
   Definition set2_model (fuel : nat) (n : Z) : option (list (Z * Z) * bool) :=
     set2_loop fuel (if n <? 0 then - n else n).
 
-  (* set(Lf, n): nn = n (no sign handling), primefactor, no exponent kept *)
+  (* set(Lf, n): nn = n (no sign handling unless the source negates), primefactor, no exponent kept *)
   Fixpoint set1_loop (fuel : nat) (nn : Z) : option (list Z) :=
     match fuel with
     | O => None
@@ -215,7 +216,8 @@ Section SetDiv.
         end
       else Some []
     end.
-  Definition set1_model (fuel : nat) (n : Z) : option (list Z) := set1_loop fuel n.
+  Definition set1_model (fuel : nat) (n : Z) : option (list Z) :=
+    set1_loop fuel (if SET1_ABS && (n <? 0) then - n else n).
 
   (* write(o, Lf, n): sign, then either the single entry nn <= 1 or the list of (g, c) *)
   Fixpoint write_loop (fuel : nat) (nn : Z) : option (list (Z * Z)) :=
@@ -261,7 +263,8 @@ Definition divisors_of_model (ifp : Z -> option Z) (fuel : nat) (n : Z) : option
 (* ------------------------------------------------------------------ isprimepower *)
 Section PrimePower.
   Variable isprime : Z -> bool.
-  Variable root : Z -> Z -> Z * bool.     (* root(q, u, k): (floor k-th root, exact?)  = mpz_root *)
+  (* root(q, u, k) = mpz_root: Some (truncated k-th root, exact?); None = GMP raises (even root of a negative) *)
+  Variable root : Z -> Z -> option (Z * bool).
 
   (* for ( ; !((unsigned)t & 1); t >>= 1, ++n2) {}        (t <> 0; >>= is mpz_tdiv_q_2exp) *)
   Fixpoint tz (fuel : nat) (t n2 : Z) : option (Z * Z) :=
@@ -278,8 +281,9 @@ Section PrimePower.
       let rem := u2 mod prime in
       if rem =? 0 then mult_loop f prime q (n + 1) else Some (u2, q, n)
     end.
-  (* the loop over primes[1..] (0-terminated); Some None = fell through *)
-  Fixpoint pp_small (fuel : nat) (ps : list Z) (u : Z) (neg : bool) : option (option (Z * Z)) :=
+  (* the loop over primes[1..] (0-terminated); Some None = fell through.
+     usize = int(u.size()) is a limb COUNT (mpz_size), never negative: the `usize < 0` tests of the code are dead *)
+  Fixpoint pp_small (fuel : nat) (ps : list Z) (u : Z) : option (option (Z * Z)) :=
     match ps with
     | [] => Some None
     | prime :: rest =>
@@ -291,42 +295,52 @@ Section PrimePower.
         match mult_loop fuel prime q 2 with
         | None => None
         | Some (u2, q', n) =>
-          if Z.even n && neg then Some (Some (0, q'))
-          else if Z.abs u2 =? 1 then Some (Some (n, prime))
+          if Z.abs u2 =? 1 then Some (Some (n, prime))
           else Some (Some (0, q'))
         end
-      else pp_small fuel rest u neg
+      else pp_small fuel rest u
     end.
-  (* for (nth = neg ? 3 : 2;; ++nth) { if (!isprime(nth)) continue; exact = root(q, u2, nth);
-       if (exact) return isprime(q) ? nth : 0;  if (|q| < SMALLEST_OMITTED_PRIME) return 0; } *)
-  Fixpoint pp_root (fuel : nat) (nth u2 : Z) : option (Z * Z) :=
+  (* for (nth = 2;; ++nth) { if (!isprime(nth)) continue; exact = root(q, u2, nth);
+       if (exact) return isprime(q) ? nth : 0 [repaired: nth * isprimepower(q, q)];  if (|q| < SMALLEST_OMITTED_PRIME) return 0; } *)
+  Fixpoint pp_root (rec : Z -> option (Z * Z)) (fuel : nat) (nth u2 : Z) : option (Z * Z) :=
     match fuel with
     | O => None
     | S f =>
-      if negb (isprime nth) then pp_root f (nth + 1) u2 else
-      let '(q, exact) := root u2 nth in
-      if exact then (if isprime q then Some (nth, q) else Some (0, q))
-      else if Z.abs q <? SMALLEST_OMITTED_PRIME then Some (0, q)
-      else pp_root f (nth + 1) u2
+      if negb (isprime nth) then pp_root rec f (nth + 1) u2 else
+      match root u2 nth with
+      | None => None
+      | Some (q, exact) =>
+        if exact then
+          (if isprime q then Some (nth, q)
+           else if IPP_RECURSE then
+             match rec q with None => None | Some (e, q') => Some (nth * e, q') end
+           else Some (0, q))
+        else if Z.abs q <? SMALLEST_OMITTED_PRIME then Some (0, q)
+        else pp_root rec f (nth + 1) u2
+      end
     end.
 
   (* result (return value, final q); q0 = value of q on entry (returned untouched on some paths) *)
-  Definition isprimepower_model (fuel : nat) (q0 u : Z) : option (Z * Z) :=
-    if u =? 0 then Some (1, q0) else
-    let neg := u <? 0 in
+  Definition isprimepower_body (rec : Z -> option (Z * Z)) (fuel : nat) (q0 u : Z) : option (Z * Z) :=
+    if u =? 0 then Some (IPP_ZERO_RET, q0) else
+    if IPP_NEG_GUARD && (u <? 0) then Some (0, q0) else
     if Z.land (Z.abs u mod 18446744073709551616) 3 =? 2 then Some (0, q0) else
     match tz fuel u 0 with
     | None => None
     | Some (t, n2) =>
-      if neg && (n2 >? 0) && Z.even n2 then Some (0, q0) else
       if n2 >? 0 then (if t =? 1 then Some (n2, 2) else Some (0, q0)) else
-      match pp_small fuel (tl PP_PRIMES) u neg with
+      match pp_small fuel (tl PP_PRIMES) u with
       | None => None
       | Some (Some r) => Some r
       | Some None =>
         let u2 := match tl PP_PRIMES with p :: _ => if p =? 0 then 0 else u | [] => 0 end in
-        pp_root fuel (if neg then 3 else 2) u2
+        pp_root rec fuel 2 u2
       end
+    end.
+  Fixpoint isprimepower_model (depth fuel : nat) (q0 u : Z) : option (Z * Z) :=
+    match depth with
+    | O => None
+    | S d => isprimepower_body (fun v => isprimepower_model d fuel v v) fuel q0 u
     end.
 End PrimePower.
 
